@@ -73,6 +73,17 @@ CHECKS["C06"] = dict(
     technique="Lean 4 proof (structural induction on formula trees, fuel monotonicity) + structural correspondence + exact-rational oracle on DuckDB rows",
 )
 
+CHECKS["C08"] = dict(
+    category="proof",
+    text="Lean 4: (1) matcher soundness on the model of PreAggregationMatcher/_try_use_preaggregation (Layer/Routing.lean): whenever `route` picks a rollup the query is grouped, all non-time dimensions and filter columns are rollup columns, "
+         "every measure is listed, unfiltered and decomposable, and EVERY requested granularity belongs to the rollup's time dimension and is accepted by the regenerated compatibility table (C08_route_sound, C08_canSatisfy_sound, C08_derivable_sound, C08_time_key_factors via C09); "
+         "(2) re-aggregation is exact for every table, bucket key, outer key factoring through it and bucket-key filter: partition permutation, commutative-monoid folds, two-level = one-level grouping (Proofs/Reagg.lean; C08_sum/count/min/max_from_rollup), AVG-of-bucket-averages refuted (F9). "
+         "Tie: generate_materialization_sql vs matQuery, routing decision vs route, routed SQL vs routedQuery (structural) and rollup/routed rows vs the Lean evaluators (behavioural). Search: the layer's own rollups, routed vs unrouted compile() on the same DuckDB database.",
+    design_ref="DESIGN.md §4 C08",
+    note="Partial: the step from the printed routed SQL to the abstract two-level form (column lookups in rollup rows) is validated by correspondence, not proved; MIN/MAX theorem for numeric measures. Nine genuine defects fixed, three recorded (F9 AVG, F31 time filter alignment, F33 time dimension as plain dimension).",
+    technique="Lean 4 proof (matcher soundness, re-aggregation algebra over all partitions) + structural/behavioural correspondence + routed-vs-unrouted oracle on DuckDB",
+)
+
 CHECKS["C16"] = dict(
     category="proof",
     text="Lean 4 theorem C16_string_one_literal: for EVERY value and every continuation, the formatted string/date value lexes as exactly one string literal whose content is the value (round-trip), "
